@@ -199,7 +199,17 @@ class SubclassedFailure(KeyError):
     pass
 
 
-FAILURES = [CallbackFailure, ValueError, TypeError, StopIteration, SubclassedFailure, ZeroDivisionError]
+class FalsyFailure(Exception):
+    """an exception whose instances are falsy (it carries an empty payload)"""
+
+    def __len__(self):
+        return 0
+
+
+import concurrent.futures as _cf  # noqa: E402
+
+FAILURES = [CallbackFailure, ValueError, TypeError, StopIteration, SubclassedFailure, ZeroDivisionError,
+            FalsyFailure, _cf.CancelledError, _cf.TimeoutError]
 
 
 class _CountingHandler(logging.Handler):
@@ -311,7 +321,7 @@ class Impl:
             max_attempts=c["max"], tags={tagname(t) for t in c["tags"]},
             skip_missing=c["skip"], weight=self.weight(c),
             args=tuple(Val(a) for a in c["args"]) if c["args"] else None,
-            kwargs={"k%d" % k: Val(v) for k, v in c["kwargs"]} if c["kwargs"] else None)
+            kwargs={"k%d" % k: Val(v) for k, v in c["kwargs"]} if c["kwargs"] else ({} if jid % 3 == 0 else None))
         # the objects supplied (the dict itself is mutated by the harness later, its values are not)
         self.sent[jid] = (kw["args"], dict(kw["kwargs"]) if kw["kwargs"] else None)
         if not c["delay"]:
@@ -354,7 +364,7 @@ class Impl:
                 else:
                     t = self.m["trigger"].weekday(ot[1], mk_time(ot[2]))
                 caller_tags = self.once_tags(c)
-                caller_kwargs = {"k%d" % kk: Val(v) for kk, v in c["kwargs"]} if c["kwargs"] else None
+                caller_kwargs = {"k%d" % kk: Val(v) for kk, v in c["kwargs"]} if c["kwargs"] else ({} if jid % 3 == 0 else None)
                 once_args = tuple(Val(a) for a in c["args"]) if c["args"] else None
                 self.sent[jid] = (once_args, dict(caller_kwargs) if caller_kwargs else None)
                 job = sch.once(t, cb, args=once_args,
@@ -374,7 +384,9 @@ class Impl:
                 del caller_tags[:1]
             handed = job.tags
             handed.add("t98")
-            handed.clear()
+            handed.add(tagname(1 + jid % 3))      # a tag the queries use: must not become the job's
+            if jid % 2:
+                handed.clear()
             self.jobs[jid] = job
             return ("job", jid)
         if k == "DEL":
@@ -386,10 +398,10 @@ class Impl:
             return ("none",)
         if k == "DELJOBS":
             tags = None if o[1] is None else {tagname(t) for t in o[1]}
-            return ("int", sch.delete_jobs(tags, o[2]))
+            return ("int", sch.delete_jobs(tags, o[2]) if o[2] else sch.delete_jobs(tags))
         if k == "GETJOBS":
             tags = None if o[1] is None else {tagname(t) for t in o[1]}
-            res = sch.get_jobs(tags, o[2])
+            res = sch.get_jobs(tags, o[2]) if o[2] else sch.get_jobs(tags)
             ids = sorted(self.job_id(j) for j in res)
             res.clear()  # the returned set is a snapshot: mutating it must not matter
             return ("ids", ids)
